@@ -218,6 +218,14 @@ def _run_lengths(model: Model, rep: Report) -> None:
         if other:
             z = [n for n in walk_no_nested(f.node) if isinstance(n, ast.Assign) and any(unparse(t) == other for t in n.targets)]
             r6.check(len(z) == 1 and unparse(z[0].value) == "0", site(f), f.qualname, f"the second run starts from 0 when the first run's terminating code arrives", why=f"{[unparse(x) for x in z]}")
+    r8 = rep.rule("C19-R8", "GUARD", "a run length of 0 is a code like any other (terminating code 0: white 00110101, black 0000110111): the only value the run-length scanners reject is None (no code)", 2)
+    for fname in ("_parse_horiz1", "_parse_horiz2"):
+        f = model.func(C + "CCITTG4Parser." + fname)
+        p = f.params[1] if len(f.params) > 1 else "n"
+        rej = [n for n in walk_no_nested(f.node) if isinstance(n, ast.If) and any(isinstance(x, ast.Raise) for x in n.body)]
+        tests8 = ["".join(unparse(n.test).split()) for n in rej]
+        truthy = [n for n in walk_no_nested(f.node) if isinstance(n, (ast.If, ast.IfExp, ast.While)) and ((isinstance(n.test, ast.Name) and n.test.id == p) or (isinstance(n.test, ast.UnaryOp) and isinstance(n.test.op, ast.Not) and isinstance(n.test.operand, ast.Name) and n.test.operand.id == p))]
+        r8.check(tests8 == [f"{p}isNone"] and not truthy, site(f, rej[0]) if rej else site(f), f.qualname, f"{fname} rejects exactly `{p} is None`", why=f"rejecting tests {tests8}, truth tests of the code {[unparse(t.test) for t in truthy]}: a run whose terminating code is 0 (a run of 64, 128, ... pixels, or an empty run) is refused as invalid data")
     z1 = [n for n in walk_no_nested(pm.node) if isinstance(n, ast.Assign) and any(unparse(t) == "self._n1" for t in n.targets)]
     r6.check(len(z1) == 1 and unparse(z1[0].value) == "0", site(pm), pm.qualname, "horizontal mode starts the first run from 0", why=f"{[unparse(x) for x in z1]}")
 
